@@ -322,6 +322,8 @@ class Runner:
                     # `del parent.children`: every member is removed with events, the attribute is
                     # dropped; the flush makes the row state agree before the collection is read again
                     mop = "clr:%d" % op["p"]
+                    if self.dupe:
+                        self.model_frozen = True  # flush + reload collapses duplicate members: outside the model
                     if rev:
                         del owner.as_
                     elif self.kind == "m2m":
